@@ -144,6 +144,28 @@ def check_sampling_result(items, env, acc):
     for k, v in items:
         if r[S(list(k))] != v:
             acc.violation("sampling_result_indexing", case, None)
+    # the same contents keyed by states whose occupations are numpy integers (as produced from arrays)
+    dn = {S([np.int64(x) for x in k]): v for k, v in items}
+    try:
+        rn = SamplingResult(dict(dn), inp)
+        if any(rn[S(list(k))] != v for k, v in items) or {tuple(int(x) for x in k.s): v for k, v in rn.items()} != dict(items):
+            acc.violation("sampling_result_numpy_int_states", case, None)
+        for kind in ("threshold", "parity"):
+            fn = rn.apply_threshold_mapping if kind == "threshold" else rn.apply_parity_mapping
+            got = {}
+            for k, v in fn().items():
+                t = tuple(int(x) for x in k.s)
+                if t in got:
+                    acc.violation("sampling_result_numpy_int_states", {**case, "mapping": kind}, {"duplicate_key": t})
+                got[t] = got.get(t, 0) + v
+            want = {}
+            for k, v in items:
+                im = image(k, kind, False)
+                want[im] = want.get(im, 0) + v
+            if got != want:
+                acc.violation("sampling_result_numpy_int_states", {**case, "mapping": kind}, {"impl": got, "ref": want})
+    except KeyError as e:
+        acc.violation("sampling_result_numpy_int_states", case, {"error": repr(e)})
     import contextlib, io
     with contextlib.redirect_stdout(io.StringIO()):
         r.display_as_dataframe(); r.print_outputs()
